@@ -327,8 +327,12 @@ def run_real_goals(pid, name, preamble, goals, shard=40, jobs=16, timeout=1200, 
 
 # ---------------------------------------------------------------- known findings
 def load_known_findings(pid: str):
-    p = VERIF / "known_findings.json"
+    # VERIF_KNOWN_FINDINGS=<path>: read that file instead of the committed known_findings.json (used to rehearse a
+    # status flip known -> fixed against a scratch copy of /repo before the lead commits it; never set in normal runs)
+    p = Path(os.environ.get("VERIF_KNOWN_FINDINGS") or (VERIF / "known_findings.json"))
     entries = []
+    if os.environ.get("VERIF_KNOWN_FINDINGS") and not p.exists():
+        raise FileNotFoundError(f"VERIF_KNOWN_FINDINGS={p} does not exist")
     if p.exists():
         entries += json.loads(p.read_text()).get("findings", [])
     # fragments written while a check is being developed; merged into known_findings.json before release
